@@ -121,7 +121,7 @@ def mk_proj(base, elems):
         alts = tuple(sorted(set(mk_proj(a, elems) for a in base[1]), key=repr))
         if len(alts) == 1:
             return alts[0]
-        return ("phi", alts)
+        return ("phi", alts, None)
     return ("proj", base, elems)
 
 
@@ -486,7 +486,7 @@ class Body:
             t = self._def_term(ds[0], depth + 1)
         else:
             alts = tuple(sorted(set(self._def_term(d, depth + 1) for d in ds), key=repr))
-            t = alts[0] if len(alts) == 1 else ("phi", alts)
+            t = alts[0] if len(alts) == 1 else ("phi", alts, l)
         self._term_cache[key] = t
         return t
 
@@ -530,11 +530,37 @@ class Body:
         k = o["k"]
         if "fn" in k:
             return ("fnitem", callee_path(k["fn"]))
+        if "promoted" in k:
+            pt = self.promoted_term(k["promoted"])
+            if pt is not None:
+                return pt
         if "uneval" in k and "promoted" not in k:
             return ("const", k["uneval"] + ("<%s>" % ",".join(k["uargs"]) if k.get("uargs") else ""), k["ty"])
         if "int" in k:
             return ("const", str(k["int"]), k["ty"])
         return ("const", k.get("s", "?"), k["ty"])
+
+    def promoted_term(self, i):
+        ps = self.rec.get("promoted") or []
+        if i >= len(ps):
+            return None
+        key = ("promoted", i)
+        if key not in self._term_cache:
+            rec = {"def": "%s::promoted[%d]" % (self.defn, i), "blocks": ps[i]["blocks"], "locals": ps[i]["locals"],
+                   "argc": 0, "kind": "promoted"}
+            pb = Body(self.facts, rec)
+            t = pb.return_term()
+            if is_mentioned(t, lambda x: x[0] in ("local", "phi")):
+                t = None
+            self._term_cache[key] = t
+        return self._term_cache[key]
+
+    def local_cases(self, l):
+        """[(guard DNF, term, block)] for each whole assignment of local l (one per arm)"""
+        out = []
+        for (bi, si, kind, s) in self.defs.get(l, []):
+            out.append((self.guard(bi), self._def_term((bi, si, kind, s), 0), bi))
+        return out
 
     def rvalue_term(self, rv, depth=0, site=None):
         r = rv["r"]
@@ -873,7 +899,7 @@ def subst_params(term, args):
     if h == "discr":
         return ("discr", subst_params(term[1], args), term[2], term[3])
     if h == "phi":
-        return ("phi", tuple(subst_params(a, args) for a in term[1]))
+        return ("phi", tuple(subst_params(a, args) for a in term[1]), None)
     return term
 
 
@@ -898,7 +924,7 @@ def subst(term, f):
     if h == "discr":
         return ("discr", subst(term[1], f), term[2], term[3])
     if h == "phi":
-        return ("phi", tuple(subst(a, f) for a in term[1]))
+        return ("phi", tuple(subst(a, f) for a in term[1]), term[2] if len(term) > 2 else None)
     return term
 
 
